@@ -132,13 +132,13 @@ def showRoutes (r : Spec.Routes) : String :=
   " ".intercalate (r.map fun ((n, f), c) => s!"{n}@{f}={c}")
 
 /-- evaluate clause (A) on the implementation's output; returns the new replayed table and failures -/
-def specFib (routes : Spec.Routes) (got : String) : Spec.Routes × List SpecFail :=
+def specFibOf (self : Nat) (routes : Spec.Routes) (got : String) : Spec.Routes × List SpecFail :=
   if isCrash got then (routes, [⟨"no-panic", "crash", got⟩]) else
   match parseObs got with
   | none => (routes, [⟨"routes-mirror-tables", "unparsable", s!"unparsable output {got}"⟩])
   | some o =>
     let routes' := Spec.replay routes o.cmds
-    let cands := Spec.candidates 0 id (lookupNat o.nbr) (fun x => ((o.pfx.find? (·.1 == x)).map (·.2)).getD []) o.rib
+    let cands := Spec.candidates self id (lookupNat o.nbr) (fun x => ((o.pfx.find? (·.1 == x)).map (·.2)).getD []) o.rib
     let want := Spec.prescribed cands
     let have_ := Spec.canon routes'
     let stale := have_.filter fun (k, _) => (Spec.rget want k).isNone
@@ -156,6 +156,29 @@ def specFib (routes : Spec.Routes) (got : String) : Spec.Routes × List SpecFail
       (if o.badCmds.isEmpty then [] else
         [⟨"routes-mirror-tables", "foreign-command", s!"command outside the prescription domain: {o.badCmds}"⟩])
     (routes', fails)
+
+def specFib (routes : Spec.Routes) (got : String) : Spec.Routes × List SpecFail := specFibOf 0 routes got
+
+/-! ### wire histories: n started routers, the harness is the network -/
+
+structure WireSt where
+  n : Nat
+  links : List (Nat × Nat) := []
+  /-- application prefixes every router currently announces -/
+  ann : List (Nat × List Nat) := []
+  /-- replayed route table of every router's forwarder -/
+  routes : List Spec.Routes := []
+
+def wireConnected (w : WireSt) (u v : Nat) : Bool :=
+  let rec go (fuel : Nat) (seen : List Nat) : List Nat :=
+    match fuel with
+    | 0 => seen
+    | fuel + 1 =>
+      let more := (List.range w.n).filter fun y => !seen.contains y && seen.any fun x => w.links.contains (x, y)
+      if more.isEmpty then seen else go fuel (seen ++ more)
+  (go w.n [u]).contains v
+
+def annOf (w : WireSt) (x : Nat) : List Nat := ((w.ann.find? (·.1 == x)).map (·.2)).getD []
 
 /-! ### prefix-log histories -/
 
@@ -281,6 +304,7 @@ inductive St where
   | none
   | fib (s : FibSt)
   | log (s : LogSt)
+  | wire (s : WireSt)
 
 def stripNoReply (got : String) : String :=
   if got.startsWith "noreply " then (got.drop 8).toString else got
@@ -566,9 +590,79 @@ def stepLog (s : LogSt) (f : List String) (got : String) : StepResult St :=
     | _, _ => skip
   | _ => skip
 
+/-- closed-loop histories: the routers run by themselves (real Router.Start); no step-by-step model — the SPEC is
+    evaluated at quiescence on what every router reports: the routes its forwarder was told mirror its tables
+    (`routes-mirror-tables`, per router), and every router holds, for every router it can reach, exactly the prefixes
+    that router announces (`log-current`: prefix logs replicate across the network) -/
+def stepWire (w : WireSt) (f : List String) (got : String) : StepResult St :=
+  let crash : List SpecFail := if isCrash got then [⟨"no-panic", "crash", got⟩] else []
+  match f with
+  | [lk, a, b] =>
+    if lk == "link" || lk == "unlink" then
+      match a.toNat?, b.toNat? with
+      | some a, some b =>
+        let up := lk == "link"
+        let valid := a < w.n && b < w.n && a != b && (w.links.contains (a, b) != up)
+        let links' := if up then (a, b) :: (b, a) :: w.links else w.links.filter fun p => p != (a, b) && p != (b, a)
+        { st := .wire (if valid then { w with links := links' } else w), expected := some (if valid then "ok" else "skip"),
+          spec := crash, cov := [s!"wire-{lk}"] }
+      | _, _ => { st := .wire w, expected := some "bad-op" }
+    else if lk == "wann" || lk == "wwd" then
+      match a.toNat?, b.toNat? with
+      | some x, some id =>
+        if !(x < w.n && id ≥ 100 && id < 107) then { st := .wire w, expected := some "skip" } else
+        let cur := annOf w x
+        let cur' := if lk == "wann" then (if cur.contains id then cur else id :: cur) else cur.filter (· != id)
+        { st := .wire { w with ann := (x, cur') :: w.ann.filter (·.1 != x) }, expected := some "ok", spec := crash,
+          cov := [s!"wire-{lk}"] }
+      | _, _ => { st := .wire w, expected := some "bad-op" }
+    else { st := .wire w, expected := some "skip" }
+  | "wrun" :: _ => { st := .wire w, expected := some "ok", spec := crash, cov := ["wire-run"] }
+  | ["wquiet", _] =>
+    let (dumps, tail) := match got.splitOn " | " with
+      | [d, t] => (d, t)
+      | _ => (got, "")
+    let parts := dumps.splitOn " ; "
+    if isCrash got || parts.length != w.n then
+      { st := .wire w, expected := none, spec := crash ++ (if isCrash got then [] else [⟨"routes-mirror-tables", "unparsable", s!"{got}"⟩]) }
+    else
+    let qFail : List SpecFail := if parseField tail "q" == some "1" then [] else
+      [⟨"pending-work-drains", "never-quiet", s!"on a loss-free network the routers never come to rest: {tail}"⟩]
+    -- per router: replay its commands, compare with the prescription of its own tables
+    let res := ((List.range w.n).zip parts).map fun (i, p) =>
+      let body := " ".intercalate ((p.splitOn " ").drop 1)
+      let (r', fails) := specFibOf i ((w.routes[i]?).getD []) body
+      (r', fails.map (fun (fl : SpecFail) => (⟨fl.clause, fl.key, s!"r{i}: {fl.msg}"⟩ : SpecFail)), parseObs body)
+    let allFails : List SpecFail := res.flatMap fun r => r.2.1
+    let mirror := if qFail.isEmpty then allFails else allFails.filter (·.clause == "no-panic")
+    -- replication: what i holds for every router x it can reach is what x announces
+    let repl : List SpecFail := if !qFail.isEmpty then [] else
+      ((List.range w.n).zip res).flatMap fun (i, r) =>
+        match r.2.2 with
+        | none => []
+        | some o =>
+          (List.range w.n).flatMap fun x =>
+            if x == i || !wireConnected w i x then [] else
+            let have_ := Spec.sortNat (((o.pfx.find? (·.1 == x)).map (·.2)).getD [])
+            let want := Spec.sortNat (annOf w x)
+            if have_ == want then [] else
+              [⟨"log-current", "wire", s!"at quiescence r{i} holds the prefixes {have_} for r{x}, which it can reach and which announces {want}"⟩]
+    { st := .wire { w with routes := res.map fun r => r.1 }, expected := none, spec := crash ++ qFail ++ mirror ++ repl,
+      cov := ["wire-quiet"] ++ (if w.ann.any (fun a => !a.2.isEmpty) then ["wire-quiet-with-prefixes"] else []),
+      nontrivial := w.n ≥ 3 && w.ann.any (fun a => !a.2.isEmpty) }
+  | _ => { st := .wire w, expected := some "skip" }
+
 def step (st : St) (op : String) (got : String) : StepResult St :=
   let f := op.splitOn " "
   match f with
+  | ["new", "wire", n, adv, dead] =>
+    match n.toNat?, adv.toNat?, dead.toNat? with
+    | some n, some adv, some dead =>
+      if n < 2 || n > 6 then { st := .none, expected := some "bad-op" }
+      else if C18.configValid adv dead then
+        { st := .wire { n := n, routes := List.replicate n [] }, expected := some "ok", cov := ["wire-new"] }
+      else { st := .none, expected := some "rejected" }
+    | _, _, _ => { st := .none, expected := some "bad-op" }
   | ["new", "fib", n] =>
     match n.toNat?, got.splitOn " " with
     | some n, "ok" :: ks =>
@@ -599,6 +693,7 @@ def step (st : St) (op : String) (got : String) : StepResult St :=
       else
         -- keep the spec replay meaningful even on an op the model does not know
         { st := st, expected := some "skip" }
+    | .wire s => stepWire s f got
     | .log s =>
       if ["ann", "wd", "rv", "burst", "sync", "pairs", "prestart", "reach", "unreach", "deliver", "timeout", "drain"].contains (f.headD "") then stepLog s f got
       else { st := st, expected := some "skip" }
